@@ -397,11 +397,17 @@ def write_evidence(prop: Any, prop_id: str, tier: str, seed: int, results: Dict[
     sim_s = 0.0
     exchanges = 0
     interleavings = set()
+    n_evals_inner = n_distinct_inner = 0
+    cover: Dict[str, set] = {}
     for i, o in results.items():
         for k, v in o.get("counters", {}).items():
             counters[k] = counters.get(k, 0) + v
         if o.get("nontrivial") and o.get("shape"):
             shapes.add(o["shape"])
+        for k, vals in (o.get("sets") or {}).items():
+            cover.setdefault(k, set()).update(vals)
+        n_evals_inner += o.get("n_evals", 1)
+        n_distinct_inner += o.get("n_distinct", 0)
         if o.get("interleaving"):
             interleavings.add(o["interleaving"])
         sim_s += o.get("sim_s", 0.0)
@@ -428,8 +434,9 @@ def write_evidence(prop: Any, prop_id: str, tier: str, seed: int, results: Dict[
         if probes[name] == 0 and name not in zero_probes:
             zero_probes.append(name)
     cov = {
-        "evaluations": n,
-        "distinct_nontrivial": len(shapes),
+        "evaluations": n_evals_inner,
+        "distinct_nontrivial": n_distinct_inner if n_distinct_inner else len(shapes),
+        "plans_executed": n,
         "rule": prop.RULE,
         "samples": samples,
         "exhaustive": bool(getattr(prop, "exhaustive", lambda t: None)(tier)) and not truncated,
@@ -443,6 +450,10 @@ def write_evidence(prop: Any, prop_id: str, tier: str, seed: int, results: Dict[
         "probes_at_zero": zero_probes,
         "distinct_interleavings": len(interleavings) if interleavings else None,
         "counters": {k: v for k, v in sorted(counters.items()) if not k.startswith(("fault_", "probe_"))},
+        "covered_values": {k: {"count": len(v), "min": min(v), "max": max(v),
+                               "covered_in_100_300": len([x for x in v if 100 <= x <= 300]),
+                               "missing_in_100_300": [x for x in range(100, 301) if x not in v][:60]}
+                           for k, v in sorted(cover.items()) if v},
         "components": getattr(prop, "COMPONENTS", COMPONENTS_DEFAULT),
         "known_finding_hits": kf_hits,
         "stale_known_findings": stale,
